@@ -67,6 +67,14 @@ fn main() {
                 z.sort_by(|a, b| a.partial_cmp(b).unwrap());
                 if z.iter().any(|x| !x.is_finite() || *x < lo || *x > hi) { found.push(format!("{nm}_zeros({n}) outside the orthogonality interval: {z:?}")); continue; }
                 if z.windows(2).any(|w| (w[1] - w[0]).abs() < 1e-6) { found.push(format!("{nm}_zeros({n}) not distinct: {z:?}")); }
+                // each reported number is a zero of the classical polynomial: its three-term recurrence changes sign within 1e-6 (1 + |z|)
+                let pn = |x: f64| -> f64 {
+                    let (mut p0, mut p1) = (1.0f64, match nm { "legendre" => x, "hermite" => 2.0 * x, _ => 1.0 - x });
+                    if n == 0 { return 1.0; }
+                    for k in 1..n { let kf = k as f64; let p2 = match nm { "legendre" => ((2.0 * kf + 1.0) * x * p1 - kf * p0) / (kf + 1.0), "hermite" => 2.0 * x * p1 - 2.0 * kf * p0, _ => ((2.0 * kf + 1.0 - x) * p1 - kf * p0) / (kf + 1.0) }; p0 = p1; p1 = p2; }
+                    p1
+                };
+                for x in z.iter() { let d = 1e-6 * (1.0 + x.abs()); if pn(x - d) * pn(x + d) > 0.0 { found.push(format!("{nm}_zeros({n}): {x} is not a zero of the classical polynomial (no sign change within {d:e})")); break; } }
             } }
         }
     }
